@@ -6,41 +6,9 @@
   hook - is constructed), so it preserves `allInst`: `norm_allInst`, on declarations without inline StructureReference.
 -/
 import TypedpyModel.Lemmas.Idempotent
+import TypedpyModel.Spec.NestedHooks
 namespace Typedpy
 open PyVal (pyEq)
-
-abbrev Hooks := String → List (String × PyVal) → Bool
-
-mutual
-def allInst (H : Hooks) : PyVal → Bool
-  | .inst c attrs => H c attrs && allInstAttrs H attrs
-  | .list xs => allInstList H xs
-  | .tuple xs => allInstList H xs
-  | .deque xs => allInstList H xs
-  | .set _ xs => allInstList H xs
-  | .dict kvs => allInstPairs H kvs
-  | .none => true
-  | .bool _ => true
-  | .int _ => true
-  | .float _ => true
-  | .dec _ => true
-  | .str _ => true
-  | .enumv _ _ => true
-  | .opaque _ => true
-termination_by structural v => v
-def allInstList (H : Hooks) : List PyVal → Bool
-  | [] => true
-  | x :: xs => allInst H x && allInstList H xs
-termination_by structural xs => xs
-def allInstAttrs (H : Hooks) : List (String × PyVal) → Bool
-  | [] => true
-  | (_, v) :: rest => allInst H v && allInstAttrs H rest
-termination_by structural xs => xs
-def allInstPairs (H : Hooks) : List (PyVal × PyVal) → Bool
-  | [] => true
-  | (k, v) :: rest => allInst H k && allInst H v && allInstPairs H rest
-termination_by structural xs => xs
-end
 
 theorem c01_allInstList_iff (H : Hooks) : ∀ xs, allInstList H xs = true ↔ ∀ x ∈ xs, allInst H x = true
   | [] => by simp [allInstList]
